@@ -48,9 +48,11 @@ def workers():
         return 16
 
 
-def safe_execute(mod, pl, timeout_s=60):
+def safe_execute(mod, pl, timeout_s=300):
     """Run one plan with the real-time backstop.  Harness exceptions propagate."""
     old = signal.signal(signal.SIGALRM, _alarm)
+    if isinstance(pl, dict) and pl.get('timeout_s'):
+        timeout_s = max(timeout_s, int(pl['timeout_s']))     # aggregated plans (sweeps) are many runs in one
     signal.alarm(timeout_s)
     # The cyclic collector runs at allocation-count thresholds that depend on what the
     # process did before; finalising a leftover suspended decoder generator in the
@@ -428,6 +430,12 @@ def replay(mod, path):
     if res['status'] == 'violation':
         print('violation: %s sig=%s' % (res['invariant'], json.dumps(res['sig'], sort_keys=True)))
         print('detail: %s' % json.dumps(res.get('detail', {}), sort_keys=True, default=str)[:2000])
+        fid = findings.load().classify(mod, {'plan': pl, 'invariant': res['invariant'], 'sig': res['sig'],
+                                             'detail': res.get('detail', {})})
+        if fid is not None and not os.environ.get('VERIF_REPLAY_RAW'):
+            # on this tree the plan runs into an open known finding: reported as such, not as a violation
+            print('KNOWN-FINDING: property=%s %s (replay of %s)' % (mod.ID, fid, os.path.basename(path)))
+            return 0
         exp = doc.get('expect')
         if exp and exp.get('sig') != res['sig']:
             print('note: signature differs from the recorded one %s' % json.dumps(exp.get('sig')))
